@@ -51,6 +51,10 @@ func VH_C04A() {
 	rec := &vRec{}
 	lg := vJSONLogger(rec)
 	s := vString(vParam("len", 2))
+	if vBool() {
+		// longer texts with HTML-like markup, entities, leading blanks and CR: data, not markup, outside colored mode
+		s = vMarkupTexts[vChoose(len(vMarkupTexts))]
+	}
 	where := vChoose(3)
 	var attrs Attrs
 	msg := "m"
@@ -294,3 +298,6 @@ func vSameDuration(v vJ, d time.Duration) bool {
 	got, err := time.ParseDuration(v.str)
 	return err == nil && got == d
 }
+
+// vMarkupTexts: texts the colored mode's markup translator would rewrite.
+var vMarkupTexts = []string{"R&amp;D <b>bold</b> report", "&lt;tag&gt; &amp; co", "  <i>lead</i>\r\nnext", "a < b & c"}
